@@ -11,6 +11,13 @@ use std::time::Instant;
 
 pub const VERIF_DIR: &str = "/verif";
 
+/// Where evidence and fresh replay files are written. Always /verif for the registered commands;
+/// `VERIF_OUT_DIR` lets a scratch evaluation (a mutant built from a scratch copy of the repository,
+/// bin/mutant-eval2) run beside a registered check without overwriting its evidence.
+pub fn out_dir() -> String {
+    std::env::var("VERIF_OUT_DIR").unwrap_or_else(|_| VERIF_DIR.to_string())
+}
+
 #[derive(Clone, Debug, Default)]
 pub struct CaseEval {
     pub failure: Option<(String, String)>,
@@ -88,7 +95,7 @@ pub fn worker_rng(args: &WorkerArgs, stream: u64) -> TestRng {
 pub fn write_replay(id: &str, case: &Value, clause: &str, detail: &str) -> String {
     let body = json!({ "property": id, "clause": clause, "detail": detail, "case": case });
     let text = serde_json::to_string_pretty(&body).unwrap();
-    let dir = format!("{VERIF_DIR}/replays");
+    let dir = format!("{}/replays", out_dir());
     let _ = std::fs::create_dir_all(&dir);
     let path = format!("{dir}/{id}-{:016x}.json", hash_str(&text));
     let _ = std::fs::write(&path, text);
@@ -378,7 +385,7 @@ pub fn run_parent(meta: &CheckMeta, tier: &str, seed: u64, regress_replays: usiz
         "wall_s": wall,
         "violations": violations.len(),
     });
-    let dir = format!("{VERIF_DIR}/evidence");
+    let dir = format!("{}/evidence", out_dir());
     let _ = std::fs::create_dir_all(&dir);
     let _ = std::fs::write(format!("{dir}/{}.json", meta.id), serde_json::to_string_pretty(&evidence).unwrap());
     println!(
